@@ -48,7 +48,8 @@ def gen_rt(seed, tier="quick"):
         if rng.random() < 0.3:
             # ... and a consumer that is triggered by it
             scn["sims"].append({"sid": "Sy", "type": "event-based", "gpath": [], "initev": False, "nent": 1})
-            scn["conns"] = list(scn["conns"]) + [{"src": "Sx", "dst": "Sy", "sa": "e", "da": "ti"}]
+            e0 = "E0" + (scn.get("eid_suffix") or "")  # (the family may have decorated the entity ids)
+            scn["conns"] = list(scn["conns"]) + [{"src": "Sx", "dst": "Sy", "sa": "e", "da": "ti", "se": e0, "de": e0}]
             beh["no_self_steps"] = ["Sx", "Sy"]
         if rng.random() < 0.7:
             beh["durations"], scn["rt"]["instant"] = [0], True
